@@ -3,6 +3,7 @@ package rules
 import (
 	"fmt"
 	"go/ast"
+	"go/constant"
 	"go/token"
 	"go/types"
 	"reflect"
@@ -746,4 +747,154 @@ func encodersReadOnly(c *cx, id string, in func(f *eng.Fn) bool) int {
 		c.r.Check(id, f, "encoder leaves the value unchanged", "E-eff: an encoder does not assign through the receiver (or a local alias of a part of it): encoding does not change the value", badPos, bad == "", bad)
 	}
 	return n
+}
+
+// childSelectedByNamespace (C13.16): where a decoder picks a child element by
+// a test of its local name and then decodes it, the same site is dominated by
+// a test of the child's namespace (or of its whole name): an element with the
+// same local name in an application namespace (an echoed request payload
+// called <error xmlns="urn:example:app"/>) is not the protocol element.
+func childSelectedByNamespace(c *cx, id string, in func(f *eng.Fn) bool) int {
+	n := 0
+	for _, f := range c.allFns() {
+		if f.Body == nil || !in(f) {
+			continue
+		}
+		g := f.Graph()
+		for _, cl := range f.AllCalls() {
+			switch f.CalleeID(cl) {
+			case "encoding/xml.Decoder.Decode", "encoding/xml.Decoder.DecodeElement":
+			default:
+				continue
+			}
+			pt, ok := g.Where(cl)
+			if !ok {
+				continue
+			}
+			locals := g.DominatingAtoms(pt, "eq(*.Name.Local,\"*\")")
+			if len(locals) == 0 {
+				continue
+			}
+			for _, la := range locals {
+				subj := strings.TrimPrefix(la[:strings.Index(la, ".Name.Local,")], "eq(")
+				n++
+				okd, _ := g.DominatedAny(pt, []string{
+					"eq(" + subj + ".Name.Space,*)", "*eq(" + subj + ".Name.Space,*", "eq(" + subj + ".Name,*)", "eq(*," + subj + ".Name)",
+					"stanza.Is(" + subj + ".Name,*)", "*" + subj + ".Name.Space*",
+				})
+				c.r.Check(id, f, "child selected by local name "+la[strings.Index(la, ".Name.Local,")+12:len(la)-1], "E-dec: a child that is decoded because of its local name is also tested for its namespace (or whole name) on every path to the decode", cl.Pos(), okd, "only the local name is tested: a child with that local name in any other namespace is decoded as the protocol element")
+			}
+		}
+	}
+	return n
+}
+
+// c19MultiValueTypes (C19.25): XEP-0004 3.2 lets fields of type list-multi,
+// jid-multi, text-multi and hidden carry more than one <value/>; the field
+// encoder's single-value rule (the break out of the value loop after the
+// first value) is taken only when the field's type is none of the four.
+func c19MultiValueTypes(c *cx, id string) {
+	f := c.fn(id, "form", "(*field).TokenReader")
+	if f == nil {
+		return
+	}
+	g := f.Graph()
+	want := []string{"list-multi", "jid-multi", "text-multi", "hidden"}
+	n := 0
+	f.WalkBody(func(nd ast.Node) bool {
+		br, ok := nd.(*ast.BranchStmt)
+		if !ok || br.Tok != token.BREAK || br.Label != nil {
+			return true
+		}
+		// a break of the range over the field's values (not of a switch)
+		var loop *ast.RangeStmt
+		for p := g.Parent(br); p != nil; p = g.Parent(p) {
+			if _, isSw := p.(*ast.SwitchStmt); isSw {
+				return true
+			}
+			if _, isSel := p.(*ast.SelectStmt); isSel {
+				return true
+			}
+			if _, isFor := p.(*ast.ForStmt); isFor {
+				return true
+			}
+			if r, isR := p.(*ast.RangeStmt); isR {
+				loop = r
+				break
+			}
+		}
+		if loop == nil || f.Norm(loop.X, nil) != "recv.value" {
+			return true
+		}
+		pt, okp := g.WhereBranch(br)
+		if !okp {
+			c.r.Check(id, f, "single-value break", "the break is located in the control-flow graph", br.Pos(), false, "cannot locate the break")
+			return true
+		}
+		n++
+		have := map[string]bool{}
+		for _, a := range g.DominatingAtoms(pt, "!eq(recv.typ,*)") {
+			op := strings.TrimSuffix(strings.TrimPrefix(a, "!eq(recv.typ,"), ")")
+			if strings.HasPrefix(op, "\"") {
+				if s, err := strconv.Unquote(op); err == nil {
+					have[s] = true
+				}
+				continue
+			}
+			if i := strings.LastIndex(op, "."); i >= 0 {
+				if o := f.Pkg.Types.Scope().Lookup(op[i+1:]); o != nil {
+					if k, isC := o.(*types.Const); isC && k.Val().Kind() == constant.String {
+						have[constant.StringVal(k.Val())] = true
+					}
+				}
+			}
+		}
+		var missing []string
+		for _, w := range want {
+			if !have[w] {
+				missing = append(missing, w)
+			}
+		}
+		c.r.Check(id, f, "single-value break", "T: only one value is written unless the field's type is list-multi, jid-multi, text-multi or hidden (XEP-0004 3.2)", br.Pos(), len(missing) == 0, "the break is also taken for fields of type "+strings.Join(missing, ", ")+": their second and later values are dropped")
+		return true
+	})
+	c.r.Floor(id, "single-value breaks in the field encoder", n, 1)
+}
+
+// rawTokensResolveXMLPrefix (C13.15/C05): a reader that hands out the
+// decoder's RAW tokens (prefixes instead of namespaces) to an encoder must
+// resolve the reserved xml prefix itself: it is never declared, so xml:lang
+// written back as {xml}lang becomes an attribute in a made-up namespace and no
+// decoder reads it as the element's language. In every function that calls
+// Decoder.RawToken and returns the token, an assignment of the XML namespace
+// to an attribute's Name.Space is dominated by the test Name.Space == "xml".
+func rawTokensResolveXMLPrefix(c *cx, id string) {
+	const xmlNS = "http://www.w3.org/XML/1998/namespace"
+	n := 0
+	for _, f := range c.allFns() {
+		if f.Body == nil || len(f.Calls("encoding/xml.Decoder.RawToken")) == 0 {
+			continue
+		}
+		if f.Sig() == nil || f.Sig().Results().Len() != 2 || eng.TypeStr(f.Sig().Results().At(0).Type()) != "encoding/xml.Token" {
+			continue
+		}
+		n++
+		g := f.Graph()
+		ok := false
+		for _, w := range f.Writes() {
+			if w.RHS == nil || !strings.HasSuffix(types.ExprString(w.LHS), ".Name.Space") {
+				continue
+			}
+			cv := f.ConstVal(w.RHS)
+			if cv == nil || cv.Kind() != constant.String || constant.StringVal(cv) != xmlNS {
+				continue
+			}
+			pt, _ := g.Where(w.Stmt)
+			if okd, _ := g.DominatedAny(pt, []string{"eq(*.Name.Space,\"xml\")"}); okd {
+				ok = true
+			}
+		}
+		c.r.Check(id, f, "raw tokens: reserved xml prefix resolved", "T: a RawToken-to-Token adaptor maps the attribute prefix xml to the XML namespace (xml:lang stays xml:lang when the token is encoded again)", f.Pos(), ok, "attributes with the reserved prefix are handed on as {xml}lang: the encoder declares a namespace called \"xml\" and writes _xml:lang")
+	}
+	c.r.Floor(id, "RawToken adaptors", n, 1)
 }
